@@ -20,7 +20,8 @@ EXTENDS Naturals, Sequences, FiniteSets, TLC, Tables
 CONSTANTS MaxLinks,     \* TCP connections over the whole run
           MaxCuts,      \* network cuts
           Dilaters,     \* sides whose application calls w.dilate()
-          AllowStop     \* sides whose application may close the wormhole
+          AllowStop,    \* sides whose application may close the wormhole
+          NoListen      \* sides that dilate with no_listen=True: no listener, no hints published - only they can dial
 
 Sides == {"L", "F"}
 Peer(x) == IF x = "L" THEN "F" ELSE "L"
@@ -117,7 +118,7 @@ StartConnecting(w, x) ==
   \* a new Connector generation; its listener is ready at once and publishes our hints
   LET g  == w.cgen[x] + 1
       w1 == [w EXCEPT !.cgen[x] = g, !.ctr[x] = Init_CTR, !.ctrOf[x][g] = Init_CTR] IN
-  IF g > MaxGen THEN w ELSE CtrInput(w1, x, g, "listener_ready", 0)
+  IF g > MaxGen THEN w ELSE IF x \in NoListen THEN w1 ELSE CtrInput(w1, x, g, "listener_ready", 0)
 
 MgrOuts(w, x, outs, arg) ==
   IF outs = <<>> THEN w
@@ -174,7 +175,7 @@ TcpUp(i) ==
   /\ links[i].phase = "dial"
   /\ LET d == links[i].dialer  a == Peer(d) IN
      \* the acceptor must still be listening: its current Connector is "connecting"
-     IF ctr[a] = "connecting"
+     IF ctr[a] = "connecting" /\ a \notin NoListen
      THEN links' = [links EXCEPT ![i].phase = "hs", ![i].gen[a] = cgen[a], ![i].endst = [L |-> "up", F |-> "up"],
                                  ![i].dcp = [L |-> Init_DCP, F |-> Init_DCP]]
      ELSE links' = [links EXCEPT ![i].phase = "dead"]          \* connection refused
@@ -251,6 +252,14 @@ MonitorDrop ==
   /\ cuts' = cuts + 1 /\ last' = <<"MonitorDrop", "L", sel.L>>
   /\ UNCHANGED <<mgr, versions, ctr, cgen, ctrOf, mq, held, nlinks, accepts, sel, lostq, stopReq, stopped, internal>>
 
+\* a ping interval passes on a healthy shared connection: the Leader's interval timer expires, it pings, the Follower answers
+\* (nothing changes at this level of abstraction - the real timer, ping and pong do run; never twice in a row)
+KeepAlive ==
+  /\ mgr.L = "CONNECTED" /\ mgr.F = "CONNECTED" /\ sel.L > 0 /\ sel.L = sel.F
+  /\ links[sel.L].endst.L = "up" /\ links[sel.L].endst.F = "up" /\ last[1] # "KeepAlive"
+  /\ last' = <<"KeepAlive", "L", sel.L>>
+  /\ UNCHANGED <<mgr, versions, ctr, cgen, ctrOf, mq, held, links, nlinks, accepts, sel, lostq, stopReq, stopped, cuts, internal>>
+
 \* side x's end of link i sees connectionLost (it was cut, it closed itself, or the peer's end closed)
 CanLose(i, x) == links[i].endst[x] \in {"cut", "closing"} \/ (links[i].endst[x] = "up" /\ links[i].endst[Peer(x)] \in {"closing", "down"})
 ObserveLoss(i, x) ==
@@ -277,7 +286,7 @@ Stop(x) ==
   /\ cuts' = cuts /\ last' = <<"Stop", x, 0>>
 
 Next == (\E x \in Sides : AppDilate(x) \/ VersionsArrive(x) \/ MailboxDeliver(x) \/ TurnAccept(x) \/ TurnLost(x) \/ Stop(x))
-        \/ MonitorDrop
+        \/ MonitorDrop \/ KeepAlive
         \/ (\E i \in LinkIds : TcpUp(i) \/ HsDone(i) \/ DeliverKcmF(i) \/ DeliverKcmL(i) \/ Cut(i)
                                \/ \E x \in Sides : ObserveLoss(i, x))
 Fair == WF_vars(\E x \in Sides : VersionsArrive(x) \/ MailboxDeliver(x) \/ TurnAccept(x) \/ TurnLost(x))
